@@ -348,7 +348,7 @@ Proof. exact ex_premises. Qed.
 (** * Round 5: "protection on / off" as a history (Model/Protection.v, shared
     with C01: the switch operated through POST /control/protection with and
     without a duration and through dns_config, the clock an input, the lazy
-    re-enable).  C01_protection_follows_last_switch states when protection is
+    re-enable; every interleaving).  C01_protection_follows_last_switch states when protection is
     in force; here: what that means for response filtering. *)
 From AGH Require Import Model.Protection Proofs.Protection.
 Local Open Scope Z_scope.
@@ -359,7 +359,7 @@ Local Open Scope Z_scope.
     whose deadline has been reached) and the client's filtering is on. *)
 Theorem C02_response_filtering_follows_last_switch :
   forall allow_eng block_eng sb par ss srt c sw0 T0 s0 h t q,
-  agrees sw0 T0 s0 -> ordered T0 h -> calm s0 h -> last_instant T0 h <= t ->
+  agrees sw0 T0 s0 -> ordered T0 h -> last_instant T0 h <= t ->
   let c' := cfg_after c s0 h t in
   response_filtering_applies allow_eng block_eng sb par ss srt c' q <->
   (passes_request_stage allow_eng block_eng sb par ss srt c' q no_result /\
@@ -371,7 +371,7 @@ Print Assumptions C02_response_filtering_follows_last_switch.
     offending record replaces the answer, whatever pause preceded it. *)
 Theorem C02_offending_record_blocks_after_history :
   forall allow_eng block_eng sb par ss srt c sw0 T0 s0 h t up q r pre rr0 post res,
-  agrees sw0 T0 s0 -> ordered T0 h -> calm s0 h -> last_instant T0 h <= t ->
+  agrees sw0 T0 s0 -> ordered T0 h -> last_instant T0 h <= t ->
   expected (last_switch sw0 h) t = true ->
   let c' := cfg_after c s0 h t in
   passes_request_stage allow_eng block_eng sb par ss srt c' q no_result ->
@@ -391,7 +391,7 @@ Print Assumptions C02_offending_record_blocks_after_history.
     the last switch. *)
 Theorem C02_protection_after_history :
   forall c sw0 T0 s0 h t,
-  agrees sw0 T0 s0 -> ordered T0 h -> calm s0 h -> last_instant T0 h <= t ->
+  agrees sw0 T0 s0 -> ordered T0 h -> last_instant T0 h <= t ->
   protection_on (cfg_after c s0 h t) = expected (last_switch sw0 h) t.
 Proof. exact protection_after_history. Qed.
 Print Assumptions C02_protection_after_history.
@@ -400,8 +400,8 @@ Print Assumptions C02_protection_after_history.
     flag): on, paused for an hour, switched on again: not in force until the
     old deadline, so answers revealing blocked records are delivered. *)
 Theorem C02_reenable_keeps_deadline_refuted :
-  exists h t, prompt h /\ ordered 0 h /\ last_instant 0 h <= t /\ last_switch SwOn h = SwOn /\
-    in_force t (prot_run set_keeps_deadline conf_as_written (prot_init true None) h) = false /\
+  exists h t, ordered 0 h /\ last_instant 0 h <= t /\ last_switch SwOn h = SwOn /\
+    in_force t (prot_run set_keeps_deadline conf_as_written wake_as_written (prot_init true None) h) = false /\
     in_force t (run_now (prot_init true None) h) = true.
 Proof. exact reenable_keeps_deadline_refuted. Qed.
 Print Assumptions C02_reenable_keeps_deadline_refuted.
